@@ -454,3 +454,21 @@ def test_d76_saved_frame_carries_its_own_source_name(tmp_path):
     fn = str(tmp_path / 'c.fil')
     fr.save_fil(fn)
     assert stg.Frame(waterfall=fn).source_name == 'MINE'
+
+
+def test_d77_frame_from_time_selected_waterfall(tmp_path):
+    from blimpy import Waterfall
+    fr = stg.Frame(fchans=16, tchans=8, df=2.0, dt=1.5, fch1=1e9, t_start=1.6e9)
+    fn = str(tmp_path / 't.fil')
+    fr.save_fil(fn)
+    first = stg.Frame(waterfall=Waterfall(fn, t_start=0, t_stop=4))
+    second = stg.Frame(waterfall=Waterfall(fn, t_start=4, t_stop=8))
+    assert second.t_start - first.t_start == pytest.approx(4 * 1.5, abs=1e-3)
+
+
+def test_d78_float_directio_card(tmp_path):
+    stem = str(tmp_path / 'f')
+    _backend(_antenna()).record(stem, num_blocks=3, length_mode='num_blocks', header_dict={'DIRECTIO': 1.0, 'K1': 1}, load_template=False,
+                                verbose=False)
+    assert raw_utils.get_total_blocks(stem) == 3
+    assert [len(guppi.parse_file(fn)) for fn in guppi.list_files(stem)] == [2, 1]
